@@ -405,11 +405,14 @@ func Cases(g G) []TCase {
 		tp.OtherContent = map[uint32]model.ParamContent[[]byte]{}
 		for k := g.Intn(4); k > 0; k-- {
 			var id uint32
-			switch g.Intn(3) {
+			switch g.Intn(4) {
 			case 0:
 				id = uint32(0xF000 + g.Intn(0x100))
 			case 1:
 				id = uint32(g.Intn(0x120)) // the standard's range, including IDs the switch may accept but store nowhere
+			case 2:
+				// IDs the standard reserves next to defined ones (0x0111..0x01FF "other CAN bus ID settings", gaps between blocks)
+				id = uint32([]int{0x0111, 0x0112, 0x0120, 0x01fe, 0x01ff, 0x0200, 0x0085, 0x005f, 0x0066, 0x0074, 0x007d, 0x0095}[g.Intn(12)])
 			default:
 				id = g.U32()
 			}
@@ -417,6 +420,9 @@ func Cases(g G) []TCase {
 				continue
 			}
 			b := g.Bytes(1 + g.Intn(10))
+			if g.Chance(1, 2) {
+				b = g.Bytes([]int{1, 2, 4, 8}[g.Intn(4)]) // the widths typed parameters have
+			}
 			if _, dup := tp.OtherContent[id]; !dup {
 				tp.OtherContent[id] = model.ParamContent[[]byte]{ID: id, Len: byte(len(b)), Value: b}
 				cnt++
